@@ -379,6 +379,40 @@ async fn exec(store: &Store, gate: &Arc<Gate>, kind: &str, op: &Value) -> Value 
             let res: Vec<Value> = joins.into_iter().map(|j| json!(j.join().unwrap_or_default())).collect();
             json!({"ok": res})
         }
+        "par" => {
+            // several threads at once, each working through its own list of appends / removes (C08: explicit removals
+            // racing the collector; nothing here is gated - open the store with gated=false)
+            let mut joins = Vec::new();
+            for t in op["threads"].as_array().cloned().unwrap_or_default() {
+                let st = store.clone();
+                joins.push(std::thread::spawn(move || {
+                    let d = t["delay_us"].as_u64().unwrap_or(0);
+                    if d > 0 {
+                        std::thread::sleep(std::time::Duration::from_micros(d));
+                    }
+                    let mut out = Vec::new();
+                    for o in t["ops"].as_array().cloned().unwrap_or_default() {
+                        match o["op"].as_str().unwrap_or("") {
+                            "append" => match frame_from_json(&o) {
+                                Ok(f) => match st.append(f) {
+                                    Ok(f) => out.push(json!({"ok": frame_json(&f)})),
+                                    Err(e) => out.push(json!({"err": classify_err(&e.to_string())})),
+                                },
+                                Err(e) => out.push(json!({"err": format!("bad-op:{}", e)})),
+                            },
+                            "remove" => match st.remove(&id_from_hex(o["id"].as_str().unwrap_or("0"))) {
+                                Ok(()) => out.push(json!({"ok": null})),
+                                Err(e) => out.push(json!({"err": classify_err(&e.to_string())})),
+                            },
+                            _ => out.push(json!({"err": "bad-op"})),
+                        }
+                    }
+                    out
+                }));
+            }
+            let res: Vec<Value> = joins.into_iter().map(|j| json!(j.join().unwrap_or_default())).collect();
+            json!({"ok": res})
+        }
         "settle" => {
             // wait until the stream has been quiet for `ms` (at most `max_ms`)
             let quiet = std::time::Duration::from_millis(op["ms"].as_u64().unwrap_or(200));
